@@ -287,7 +287,7 @@ func integrateLaw(logf func(float64) float64, lo, hi float64, brk []float64, c f
 			w := width
 			for ; k < capK; k++ {
 				far := near + dir*w
-				if math.IsInf(far, 0) {
+				if math.Abs(far) > 1e300 { // products with parameters overflow beyond
 					break
 				}
 				var p [nAcc]float64
